@@ -124,13 +124,17 @@ static size_t tok_put(char *out, char kind, int prec, uint64_t bits) {
   return o;
 }
 static int tok_get(const char *s, char *kind, int *prec, uint64_t *bits, const char **end) {
+  /* a token is recognised only if it is complete (ordinary text may start with the marker byte) */
   if (s[0] != TOK) return 0;
   size_t o = 1;
-  *kind = s[o++];
+  char kd = s[o];
+  if (kd != 'i' && kd != 'l' && kd != 'u' && kd != 'L' && kd != 'g') return 0;
+  o++;
+  *kind = kd;
   *prec = 0;
-  if (*kind == 'g') *prec = s[o++] - '0';
+  if (kd == 'g') { if (s[o] < '0') return 0; *prec = s[o] - '0'; o++; }
   uint64_t b = 0;
-  for (int k = 0; k < 16; k++) b = (b << 4) | (uint64_t)((s[o++] - 'a') & 15);
+  for (int k = 0; k < 16; k++) { char c = s[o]; if (c < 'a' || c > 'p') return 0; b = (b << 4) | (uint64_t)(c - 'a'); o++; }
   *bits = b;
   *end = s + o;
   return 1;
@@ -234,6 +238,7 @@ static int verif_scan(const char *s, const char **endp, int base, int *neg, uint
   return any;
 }
 
+static int verif_is_tok(const char *s) { char kind; int prec; uint64_t bits; const char *e; return tok_get(s, &kind, &prec, &bits, &e); }
 static uint64_t verif_tok_int(const char *s, char **endptr, int is_unsigned_result, int *neg, int *ovf) {
   char kind; int prec; uint64_t bits; const char *e;
   tok_get(s, &kind, &prec, &bits, &e);
@@ -245,7 +250,7 @@ static uint64_t verif_tok_int(const char *s, char **endptr, int is_unsigned_resu
 
 long long strtoll(const char *s, char **endptr, int base) {
   int neg, ovf; uint64_t mag;
-  if (s[0] == TOK) mag = verif_tok_int(s, endptr, 0, &neg, &ovf);
+  if (verif_is_tok(s)) mag = verif_tok_int(s, endptr, 0, &neg, &ovf);
   else { const char *e; verif_scan(s, &e, base, &neg, &mag, &ovf); if (endptr) *endptr = (char *)e; }
   if (!neg) { if (ovf || mag > (uint64_t)LLONG_MAX) { verif_errno = ERANGE; return LLONG_MAX; } return (long long)mag; }
   if (ovf || mag > (uint64_t)LLONG_MAX + 1) { verif_errno = ERANGE; return LLONG_MIN; }
@@ -255,7 +260,7 @@ long strtol(const char *s, char **endptr, int base) { return (long)strtoll(s, en
 
 unsigned long long strtoull(const char *s, char **endptr, int base) {
   int neg, ovf; uint64_t mag;
-  if (s[0] == TOK) mag = verif_tok_int(s, endptr, 1, &neg, &ovf);
+  if (verif_is_tok(s)) mag = verif_tok_int(s, endptr, 1, &neg, &ovf);
   else { const char *e; verif_scan(s, &e, base, &neg, &mag, &ovf); if (endptr) *endptr = (char *)e; }
   if (ovf) { verif_errno = ERANGE; return ULLONG_MAX; }
   return neg ? (uint64_t)0 - mag : mag;
@@ -283,7 +288,7 @@ static size_t verif_float_prefix(const char *s) {
   return (size_t)(p - s);
 }
 double strtod(const char *s, char **endptr) {
-  if (s[0] == TOK) {
+  if (verif_is_tok(s)) {
     char kind; int prec; uint64_t bits; const char *e;
     tok_get(s, &kind, &prec, &bits, &e);
     if (endptr) *endptr = (char *)e;
@@ -301,7 +306,7 @@ double strtod(const char *s, char **endptr) {
   return nondet_double();
 }
 float strtof(const char *s, char **endptr) {
-  if (s[0] == TOK) {
+  if (verif_is_tok(s)) {
     char kind; int prec; uint64_t bits; const char *e;
     tok_get(s, &kind, &prec, &bits, &e);
     if (endptr) *endptr = (char *)e;
